@@ -35,7 +35,7 @@ CHECKS = {
              "itself: the SubqueryMarker branch of the SQL compiler (needed-column selection, visible columns first, name de-duplication, outer re-selection) "
              "leaves the exported frame unchanged for every accumulated SELECT (subquery_transparent, marker_transparent, refines_through_marker) under the "
              "stated readiness conditions (visible columns needed, defined, distinctly named; aggregate status independent of hidden columns); verbs above the "
-             "marker are covered by the correspondence, not by a theorem. Corollaries: a row-level pipeline (frag_marker_refines), a join of two sources with row-level verbs (jfrag_marker_refines), an ordered pipeline with a final slice_head (ofrag_marker_refines) and a grouped summarize (grouped_marker_refines) below the marker refine the reference semantics whenever the caller's needed-columns counter holds the visible columns (frag_needed_mono / wrap_needed_mono / join_needed_mono prove that compilation never loses them).",
+             "marker are covered by the correspondence, not by a theorem. Corollaries: a row-level pipeline (frag_marker_refines), a join of two sources with row-level verbs (jfrag_marker_refines), an ordered pipeline with a final slice_head (ofrag_marker_refines) and a grouped summarize (grouped_marker_refines) below the marker refine the reference semantics whenever the caller's needed-columns counter holds the visible columns (frag_needed_mono / wrap_needed_mono / join_needed_mono prove that compilation never loses them). One verb above the marker: filter_above_marker proves `... >> alias() >> filter(p)` for any pipeline below (stated through Ready and RefU only), with the three instances in which the library demands the alias: window_alias_filter_refines (mutate(window) >> alias() >> filter), grouped_alias_filter_refines (summarize >> alias() >> filter, the HAVING pattern), ofrag_alias_filter (slice_head >> alias() >> filter); longer chains above a marker are covered by the correspondence only.",
         design_ref="DESIGN.md section 5, C08",
         note=NOTE_COMMON + "Modelled, not verified: SQLite execution (oracle only). Known findings are matched by trigger predicates (harness/triggers.py).",
     ),
